@@ -800,3 +800,139 @@ def expand_attr_aliases(repo):
                 tot[1] += b
                 tot[2] += c
     return tuple(tot)
+
+
+# ------------------------------------------------------------------------------------------------
+# read-only aliases of another object's attributes in module-level functions (solve_ivp: `status = ode_system.integration_status`)
+PURE_CALLS = ("getfullargspec", "signature")
+LOCAL_ALIAS_FUNCTIONS = [("desolver/differential_system.py", "solve_ivp")]
+
+
+def _pure_read(v):
+    """Name | <pure>.attr | <pure>[<constant index / slice of constants>] | getfullargspec(<pure>)   -> set of root names, or None"""
+    if isinstance(v, ast.Name):
+        return {v.id}
+    if isinstance(v, ast.Attribute):
+        return _pure_read(v.value)
+    if isinstance(v, ast.Subscript):
+        sl = v.slice
+        parts = [sl.lower, sl.upper, sl.step] if isinstance(sl, ast.Slice) else [sl]
+        for p_ in parts:
+            if p_ is None:
+                continue
+            if isinstance(p_, ast.UnaryOp) and isinstance(p_.op, ast.USub):
+                p_ = p_.operand
+            if not (isinstance(p_, ast.Constant) and isinstance(p_.value, int)):
+                return None
+        return _pure_read(v.value)
+    if isinstance(v, ast.Call) and isinstance(v.func, (ast.Attribute, ast.Name)) and (v.func.attr if isinstance(v.func, ast.Attribute) else v.func.id) in PURE_CALLS \
+            and len(v.args) == 1 and not v.keywords:
+        r = _pure_read(v.args[0])
+        return r
+    return None
+
+
+def _root(node):
+    while isinstance(node, (ast.Attribute, ast.Subscript, ast.Call)):
+        node = node.func if isinstance(node, ast.Call) else node.value
+    return node.id if isinstance(node, ast.Name) else None
+
+
+def expand_local_object_aliases_in(fn):
+    """A local bound ONCE to a pure read of another local object (`status = system.integration_status`, `last = system[-1]`, `y_all = system.y`,
+    `names = inspect.getfullargspec(f)[0][2:]`) is replaced by that read at every use, provided nothing between the binding and the use can change what
+    the read returns: no method call on, store through, or rebinding of the object the read is rooted in (for a use inside a loop that does not contain
+    the binding, nothing anywhere in that loop).  Returns the number of reads rewritten."""
+    total = 0
+    for _ in range(4):
+        stores, defs = {}, {}
+        params = {a.arg for a in fn.args.posonlyargs + fn.args.args + fn.args.kwonlyargs}
+        for n in ast.walk(fn):
+            if isinstance(n, ast.Name) and isinstance(n.ctx, (ast.Store, ast.Del)):
+                stores[n.id] = stores.get(n.id, 0) + 1
+            if isinstance(n, ast.Assign) and len(n.targets) == 1 and isinstance(n.targets[0], ast.Name):
+                defs[n.targets[0].id] = n
+        done = 0
+        for name, st in list(defs.items()):
+            if stores.get(name) != 1 or name in params or isinstance(st.value, ast.Name):
+                continue
+            roots = _pure_read(st.value)
+            if not roots or name in roots:
+                continue
+            if enclosing_function_of(st) is not fn:
+                continue
+            uses = [n for n in ast.walk(fn) if isinstance(n, ast.Name) and n.id == name and isinstance(n.ctx, ast.Load)]
+            if not uses or any(enclosing_function_of(u) is not fn for u in uses):
+                continue
+            end_def = (st.end_lineno, st.end_col_offset)
+            ok = True
+            for u in uses:
+                if (u.lineno, u.col_offset) <= end_def:
+                    ok = False
+                    break
+                hi = (u.lineno, u.col_offset)
+                p_ = u
+                while getattr(p_, "_parent", None) is not None and p_ is not fn:
+                    p_ = p_._parent
+                    if isinstance(p_, (ast.For, ast.While)) and not any(x is st for x in ast.walk(p_)):
+                        hi = (p_.end_lineno, p_.end_col_offset)
+                for b in ast.walk(fn):
+                    pos = (getattr(b, "lineno", None), getattr(b, "col_offset", None))
+                    if pos[0] is None or not (end_def < pos < hi):
+                        continue
+                    if isinstance(b, ast.Call) and isinstance(b.func, ast.Attribute) and _root(b.func) in roots:
+                        ok = False
+                    elif isinstance(b, (ast.Attribute, ast.Subscript)) and isinstance(b.ctx, (ast.Store, ast.Del)) and _root(b) in roots:
+                        ok = False
+                    elif isinstance(b, ast.Name) and isinstance(b.ctx, (ast.Store, ast.Del)) and b.id in roots:
+                        ok = False
+                    elif isinstance(b, ast.Call) and any(isinstance(a, ast.Name) and a.id in roots for a in b.args):
+                        ok = False          # the object is handed to a callee, which may change it
+                    if not ok:
+                        break
+                if not ok:
+                    break
+            if not ok:
+                continue
+            for u in uses:
+                new = _clone(st.value)
+                for x in ast.walk(new):
+                    for a_ in ("lineno", "col_offset", "end_lineno", "end_col_offset"):
+                        if hasattr(u, a_):
+                            setattr(x, a_, getattr(u, a_))
+                par = u._parent
+                for f_, val in ast.iter_fields(par):
+                    if val is u:
+                        setattr(par, f_, new)
+                    elif isinstance(val, list):
+                        for i_, x in enumerate(val):
+                            if x is u:
+                                val[i_] = new
+                _annotate(new, par)
+                done += 1
+            blk = st._parent
+            for f_, val in ast.iter_fields(blk):
+                if isinstance(val, list) and any(x is st for x in val):
+                    val[:] = [x for x in val if x is not st] or [ast.copy_location(ast.Pass(), st)]
+                    for x in val:
+                        x._parent = blk
+        total += done
+        if not done:
+            break
+    return total
+
+
+def enclosing_function_of(node):
+    p_ = getattr(node, "_parent", None)
+    while p_ is not None and not isinstance(p_, (ast.FunctionDef, ast.AsyncFunctionDef, ast.Lambda)):
+        p_ = getattr(p_, "_parent", None)
+    return p_
+
+
+def expand_local_object_aliases(repo):
+    n = 0
+    for rel, q in LOCAL_ALIAS_FUNCTIONS:
+        fn = repo.maybe(rel, q)
+        if fn is not None:
+            n += expand_local_object_aliases_in(fn)
+    return n
